@@ -4,7 +4,11 @@
 // state the scheduler can hold. Without a hook it does nothing.
 package simhook
 
-import "sync/atomic"
+import (
+	"net"
+	"net/http"
+	"sync/atomic"
+)
 
 var goStart atomic.Pointer[func(site string)]
 
@@ -40,4 +44,42 @@ func Yield(site string) {
 	if f := yield.Load(); f != nil {
 		(*f)(site)
 	}
+}
+
+var listen atomic.Pointer[func(addr string) net.Listener]
+
+// SetListen installs (or, with nil, removes) the listener factory of the world: servers that
+// the code under test starts on a TCP address are then served on that listener instead.
+func SetListen(f func(addr string) net.Listener) {
+	if f == nil {
+		listen.Store(nil)
+		return
+	}
+	listen.Store(&f)
+}
+
+// ListenAndServe stands in for http.ListenAndServe (prep mode httpserve).
+func ListenAndServe(addr string, h http.Handler) error {
+	if f := listen.Load(); f != nil {
+		return (&http.Server{Addr: addr, Handler: h}).Serve((*f)(addr))
+	}
+	return http.ListenAndServe(addr, h)
+}
+
+// ServerListenAndServe stands in for (*http.Server).ListenAndServe; s is an http.Server or a
+// pointer to one. The server keeps every setting the code under test gave it.
+func ServerListenAndServe(s any) error {
+	var srv *http.Server
+	switch v := s.(type) {
+	case *http.Server:
+		srv = v
+	case http.Server:
+		srv = &v
+	default:
+		panic("simhook: ListenAndServe on something that is not an http.Server")
+	}
+	if f := listen.Load(); f != nil {
+		return srv.Serve((*f)(srv.Addr))
+	}
+	return srv.ListenAndServe()
 }
